@@ -502,6 +502,40 @@ theorem assign_after_history (s : St) (ops : List Op) (v : Obj) (hc : (run str s
     (step str (run str s ops) (.assign v)).2.err = none ↔ v ∈ listView (run str s ops) :=
   (assign_checks_current str _ v hc).1
 
+/-! ### The full statement, refuted: value assignment on a non-checking, dict-declared Selector
+
+`Op.ok` lets a value assignment through only when the Selector checks membership or has no names.
+The property itself makes no such exception ("… interleaved with value assignments"), so here is the
+statement without it — and the witness that it is false of the model (and, replayed by the harness,
+of the library: KNOWN_FINDINGS `nonchecking-assign-leaves-object-unnamed`).  `run_preserves_inv`
+above is the part that holds. -/
+
+/-- style-consistency as the property words it: every value assignment is allowed -/
+def Op.okFull (s : St) : Op → Prop
+  | .assign _ => True
+  | op => Op.ok s op
+
+def okSeqFull : St → List Op → Prop
+  | _, [] => True
+  | s, op :: ops => Op.okFull s op ∧ okSeqFull (step str s op).1 ops
+
+/-- C18 at full strength -/
+def C18_full : Prop := ∀ (s : St) (ops : List Op), Inv s → okSeqFull str s ops → Inv (run str s ops)
+
+/-- **C18 (full statement): refuted.**  `Selector(objects={'a': 1}, check_on_set=False)`; `obj.p = 7`:
+`_ensure_value_is_in_objects` appends 7 to the objects list but gives it no name, so the list view
+has two objects and the name mapping one. -/
+theorem C18_full_refuted : ¬ C18_full str := by
+  intro h
+  have := h { objs := [1], names := [("a", 1)], checkOnSet := false } [.assign 7]
+    (by simp [Inv]) (by simp [okSeqFull, Op.okFull])
+  simp [run, step, Inv] at this
+
+/-- … and that is the only way: a history whose value assignments on a dict-declared Selector all
+go through the membership check (or hit a known object) is covered by `run_preserves_inv`. -/
+theorem okFull_of_ok (s : St) (op : Op) (h : Op.ok s op) : Op.okFull s op := by
+  cases op <;> simp_all [Op.okFull]
+
 /-! ### Non-vacuity: concrete states and histories that meet the hypotheses -/
 
 example : Inv { objs := [1, 2, 3], names := [("a", 1), ("b", 2), ("c", 3)] } := by decide
